@@ -14,7 +14,14 @@ Decides from the syntax tree / CFG of batch/batch/semaphore.py and batch/batch/w
                `S.release(w')` with w' = w (linear normal forms with opaque `mod c` atoms compared, no evaluation), and no release is reachable unless an acquire
                COMPLETED (acquire inside the try whose finally releases; release inside `async with`).  Same-class helpers are inlined when the release lives in
                one.  No user writes `.value` or manipulates `.queue` of the semaphore.  At least two acquisition sites (DockerJob.run, JVMJob.run) must be found
-Does not decide: schedules as such; cancellation of a *waiting* acquirer is outside the property's quantifier (reported as INFO).
+  R5 no abandoned waiter   FIFOWeightedSemaphore.acquire runs no clean-up when it is cancelled (decided: no except/finally around its await touches queue / value / release),
+               so a waiter that is cancelled while QUEUED leaves its entry behind, release later "grants" it and that weight is lost for good: the head waiter then blocks on an
+               idle worker.  Hence no acquisition of cpu_sem may be cancellable on its own: the bound `acquire` (or the coroutine object) is not handed to a function that cancels
+               what it is given (per module: parameters whose awaitable becomes a task that the function `.cancel()`s / is passed to wait_for / is awaited under a timeout block,
+               closed under thin wrappers and resolved through the class hierarchy), the waiting statement is not inside `async with asyncio.timeout(...)`, and no function that
+               (transitively, through awaited same-module calls) waits for the semaphore is handed to such a canceller.  Receivers other than self are decided only when every
+               method of that name waits; otherwise the site is declined, never passed.  @asynccontextmanager helpers that acquire around their `yield` are followed to their users
+Does not decide: schedules as such; cancellation of the whole worker at shutdown (task manager) is outside the property; who cancels a task handle stored in an attribute.
 """
 from __future__ import annotations
 
@@ -32,11 +39,12 @@ META = dict(
     text='Structural necessary conditions of safety/FIFO/liveness of the weighted semaphore decided on the CFG: guard dominance with '
          'atomicity between suspension points, exhaustive evaluation of the extracted guards over the order relation x queue emptiness, '
          'closed set of queue operations, acquire/release pairing on all exits of the context manager and at every use site in the worker '
-         '(async with, or manual acquire/release checked on the CFG with exception edges: release on every exit, only after a completed acquire, once, same weight). '
+         '(async with, or manual acquire/release checked on the CFG with exception edges: release on every exit, only after a completed acquire, once, same weight), '
+         'and a who-may-cancel analysis showing that no queued waiter can be abandoned (acquire has no cancellation clean-up). '
          'Not a proof over interleavings: the rules are the invariants an interleaving argument needs, checked statement by statement.',
     note='Trusted: CPython ast; engines/pyfacts CFG; asyncio runs one coroutine at a time and only switches at await. '
-         'Not decided: cancellation of a waiting acquirer (outside the quantifier), weights above capacity.',
-    technique='static analysis: CFG guard dominance + await-atomicity + finite truth tables over extracted tests + use-site closure',
+         'Not decided: weights above capacity; cancellation of the whole worker at shutdown; task handles kept in attributes (declined when they may hold a waiting job).',
+    technique='static analysis: CFG guard dominance + await-atomicity + finite truth tables over extracted tests + use-site closure + who-may-cancel analysis of handed-over awaitables',
     design_ref='DESIGN.md §3 C16',
 )
 
@@ -51,6 +59,29 @@ FIFO_OK = {'method:append', 'index:0', 'method:popleft', 'truth', 'len'}
 FIFO_BAD = {'method:appendleft': 'enqueues at the head', 'method:pop': 'removes the newest waiter', 'method:insert': 'enqueues out of order',
             'method:rotate': 'reorders waiters', 'method:reverse': 'reorders waiters', 'method:remove': 'removes a waiter out of order',
             'method:extendleft': 'enqueues at the head', 'method:clear': 'drops waiters without waking them', 'method:sort': 'reorders waiters'}
+
+
+def _removes_own_entry_on_cancel(m: pf.Module, cls: ast.ClassDef, call: ast.AST) -> bool:
+    """`self.queue.remove(<the tuple this call of acquire appended>)` inside an except / finally block of the try around acquire's own wait."""
+    fn = m.enclosing_func(call)
+    if fn is None or fn.name != 'acquire' or not isinstance(call, ast.Call) or len(call.args) != 1:
+        return False
+    apps = [c for c in pf.calls_in(fn) if pf.dotted(c.func) == f'{Q}.append' and len(c.args) == 1]
+    if len(apps) != 1 or pf.nsrc(apps[0].args[0]) != pf.nsrc(call.args[0]):
+        return False
+    names = pf.names_in(call.args[0])
+    if any(len(pf.assignments(fn).get(nm, [])) != 1 for nm in names):
+        return False
+    par = m.parents()
+    cur: ast.AST = call
+    while cur is not fn:
+        p = par.get(cur)
+        if p is None:
+            return False
+        if isinstance(p, ast.Try) and (any(cur is h for h in p.handlers) or any(cur is s_ for s_ in p.finalbody)):
+            return any(isinstance(x, ast.Await) for s_ in p.body for x in ast.walk(s_))
+        cur = p
+    return False
 
 
 def _r2_fifo(ctx: Ctx, m: pf.Module, cls: ast.ClassDef) -> None:
@@ -68,6 +99,9 @@ def _r2_fifo(ctx: Ctx, m: pf.Module, cls: ast.ClassDef) -> None:
             ctx.ok('R2', cons, 'empty deque')
         elif u.kind in FIFO_OK:
             ctx.ok('R2', cons, u.kind)
+        elif u.kind == 'method:remove' and _removes_own_entry_on_cancel(m, cls, u.node):
+            # a cancelled waiter taking ITS OWN entry out keeps the relative order of everybody else (whether the handler is complete is R5's concern, which then declines)
+            ctx.ok('R2', cons, 'own entry removed in the cancellation handler of the wait')
         elif u.kind in FIFO_BAD:
             ctx.bad('R2', cons, f'`{u.detail}` {FIFO_BAD[u.kind]}: waiters are no longer granted in arrival order', m.path, line)
         elif u.kind.startswith('index:') or u.kind.startswith('setitem:') or u.kind.startswith('delitem:'):
@@ -439,19 +473,167 @@ def _manual_site(ctx: Ctx, m: pf.Module, fn: pf.FuncDef, q: str, S: str, orig: p
     return len(P.acquires), len({id(rel_call(r)) for r in P.releases})
 
 
-def _worker_uses(ctx: Ctx) -> None:
+def _handed_to(par: Dict[ast.AST, ast.AST], attr: ast.Attribute) -> Optional[Tuple[ast.AST, ast.Call]]:
+    """`S.acquire` not awaited in place but passed on: (the handed expression, the call that receives it).  Either the bound method itself is an
+    argument, or the coroutine object `S.acquire(w)` is."""
+    up = par.get(attr)
+    handed: ast.AST = attr
+    if isinstance(up, ast.Call) and up.func is attr:
+        handed, up = up, par.get(up)
+    if isinstance(up, ast.keyword):
+        kw, up = up, par.get(up)
+        if isinstance(up, ast.Call) and any(k is kw for k in up.keywords):
+            return handed, up
+        return None
+    if isinstance(up, ast.Call) and any(a is handed for a in up.args):
+        return handed, up
+    return None
+
+
+_ABANDONED = ('FIFOWeightedSemaphore.acquire has no cancellation clean-up, so the abandoned waiter\'s (event, weight) entry stays in the queue; when it reaches the head, release() '
+              '"grants" it (value -= weight, event.set()) although nobody is listening and nobody will ever release that weight. History with capacity 4000: J1(4000) runs; '
+              'J2(2000), J3(2000) queue; J2\'s wait is cancelled; J1 and J3 finish; J4(4000) arrives at an idle worker, is the only waiter, and blocks forever '
+              '(value == 2000): a waiter at the head of the queue is blocked while all capacity is free (liveness)')
+
+
+def _r5_handed(ctx: Ctx, m: pf.Module, mf: 'cf.ModFuncs', exposed, q: str, handed: ast.AST, recv: ast.Call, cancel_safe: bool, what: str) -> None:
+    verdict, how = cf.handover_verdict(mf, exposed, q, recv, handed)
+    cons = f'{m.rel}::{q}::{short(pf.nsrc(recv), 90)}'
+    if verdict == 'cancels':
+        ctx.need(not cancel_safe, f'{cons}: {what} can be cancelled while queued ({how}) and acquire has a cancellation handler: whether that handler restores the queue/counter is not analysed')
+        ctx.bad('R5', cons, f'{what} is handed to a caller that may cancel it while it is still QUEUED: {how}. {_ABANDONED}', m.path, recv.lineno)
+        return
+    raise AnalysisError(f'{cons}: {what} is handed over instead of being awaited in place ({how}); acquire/release pairing across that call is not analysed')
+
+
+def _cm_users(ctx: Ctx, m: pf.Module, mf: 'cf.ModFuncs', q: str, fn: pf.FuncDef) -> List[Tuple[str, ast.AST]]:
+    """`async with <recv>.<helper>():` statements entering the context-manager helper q; any other use of the helper is declined."""
+    par = m.parents()
+    out: List[Tuple[str, ast.AST]] = []
+    same_name = [k for k in mf.by_q if k.split('.')[-1] == fn.name]
+    for x in ast.walk(m.tree):
+        if not ((isinstance(x, ast.Attribute) and x.attr == fn.name) or (isinstance(x, ast.Name) and x.id == fn.name and isinstance(x.ctx, ast.Load))):
+            continue
+        call = par.get(x)
+        if not (isinstance(call, ast.Call) and call.func is x) and not (isinstance(x, ast.Attribute) and isinstance(x.value, ast.Name) and x.value.id in ('self', 'cls')):
+            continue  # a data attribute / local of the same name (`instance_config.cores`), not the helper
+        ctx.need(same_name == [q], f'{m.rel}: several functions are named {fn.name} ({same_name}); which one `{pf.nsrc(x)}` denotes is not analysed')
+        item = par.get(call) if call is not None else None
+        stmt = par.get(item) if item is not None else None
+        ok = isinstance(call, ast.Call) and call.func is x and isinstance(item, ast.withitem) and item.context_expr is call and isinstance(stmt, ast.AsyncWith)
+        ctx.need(ok, f'{m.rel}: the context-manager helper {q} is used other than as `async with ...{fn.name}()`: `{short(pf.nsrc(call if call is not None else x), 60)}`')
+        user = m.enclosing_func(x)
+        ctx.need(user is not None, f'{m.rel}: {q} entered at module level')
+        out.append((m.qualname(user), stmt))  # type: ignore[arg-type]
+    return out
+
+
+def _r5_sites(ctx: Ctx, m: pf.Module, mf: 'cf.ModFuncs', exposed, sites: List[Tuple[str, ast.AST]], cancel_safe: bool) -> None:
+    """A job that waits for the semaphore must not be abandoned while queued: the waiting statement is not inside a timeout block, and no function that
+    (transitively, through awaited same-module calls) contains it is handed to a caller that cancels what it is given."""
+    par = m.parents()
+    # functions whose execution includes waiting for the semaphore
+    waits: Dict[str, str] = {q: 'it waits for cpu_sem' for q, _ in sites}
+    changed = True
+    while changed:
+        changed = False
+        for q, fn in mf.by_q.items():
+            if q in waits:
+                continue
+            for x in pf.walk_shallow(fn):
+                if isinstance(x, ast.Await) and isinstance(x.value, ast.Call):
+                    tg = mf.resolve(q, x.value.func)
+                    if tg and all(t in waits for t in tg):
+                        waits[q] = f'it awaits {tg[0]}, and {waits[tg[0]]}'
+                        changed = True
+                        break
+
+    def timeout_blocks(node: ast.AST) -> List[ast.AsyncWith]:
+        out = []
+        cur = par.get(node)
+        while cur is not None and not isinstance(cur, (ast.FunctionDef, ast.AsyncFunctionDef, ast.Lambda)):
+            if isinstance(cur, ast.AsyncWith) and any(cf.is_timeout_cm(i.context_expr) for i in cur.items) and not any(node is i.context_expr for i in cur.items):
+                out.append(cur)
+            cur = par.get(cur)
+        return out
+    waiting_nodes: List[Tuple[str, ast.AST, str]] = [(q, node, 'the wait for cpu_sem') for q, node in sites]
+    for q, fn in mf.by_q.items():
+        for x in pf.walk_shallow(fn):
+            if isinstance(x, ast.Await) and isinstance(x.value, ast.Call):
+                tg = mf.resolve(q, x.value.func)
+                if tg and all(t in waits for t in tg):
+                    waiting_nodes.append((q, x, f'`{short(pf.nsrc(x), 50)}` ({waits[tg[0]]})'))
+    for q, node, what in waiting_nodes:
+        tb = timeout_blocks(node)
+        cons = f'{m.rel}::{q}::{short(pf.nsrc(node).splitlines()[0] if not isinstance(node, ast.AsyncWith) else "async with " + pf.nsrc(node.items[0].context_expr), 70)}::not abandoned while queued'
+        if tb:
+            ctx.need(not cancel_safe, f'{cons}: under a timeout and acquire has a cancellation handler (not analysed)')
+            ctx.bad('R5', cons, f'{what} runs inside `async with {pf.nsrc(tb[0].items[0].context_expr)}`: when the timeout expires while the job is still QUEUED its wait is cancelled. {_ABANDONED}',
+                    m.path, getattr(node, 'lineno', 0))
+        elif (q, node) in sites:
+            ctx.ok('R5', cons, 'no enclosing timeout block')
+    # functions that MAY wait for the semaphore: as above, but a call through a receiver other than self counts when SOME method of that name waits
+    def by_name(attr: str) -> List[str]:
+        return [k for k in mf.by_q if k.count('.') == 1 and k.split('.')[-1] == attr and mf.class_of(k) is not None]
+    may: Dict[str, str] = dict(waits)
+    changed = True
+    while changed:
+        changed = False
+        for q, fn in mf.by_q.items():
+            if q in may:
+                continue
+            for x in pf.walk_shallow(fn):
+                if isinstance(x, ast.Await) and isinstance(x.value, ast.Call):
+                    f_ = x.value.func
+                    tg = mf.resolve(q, f_) or (by_name(f_.attr) if isinstance(f_, ast.Attribute) else [])
+                    hit = [t for t in tg if t in may]
+                    if hit:
+                        may[q] = f'it awaits `{short(pf.nsrc(f_), 40)}`, which can be {hit[0]}, and {may[hit[0]]}'
+                        changed = True
+                        break
+    # a waiting function handed (as bound method / coroutine object) to something that cancels what it is given
+    for qh, fh in mf.by_q.items():
+        for rc in pf.calls_in(fh):
+            for a in list(rc.args) + [k.value for k in rc.keywords]:
+                ref = a.func if isinstance(a, ast.Call) else a
+                if not isinstance(ref, (ast.Name, ast.Attribute)):
+                    continue
+                tg = mf.resolve(qh, ref)
+                if not tg and isinstance(ref, ast.Attribute):
+                    tg = by_name(ref.attr)   # receiver other than self: every method of that name in the module
+                if not tg or not any(t in may for t in tg):
+                    continue
+                verdict, how = cf.handover_verdict(mf, exposed, qh, rc, a)
+                if verdict not in ('cancels', 'may-cancel'):
+                    continue
+                cons = f'{m.rel}::{qh}::{short(pf.nsrc(rc), 90)}'
+                ctx.need(not cancel_safe, f'{cons}: a waiting function is cancellable and acquire has a cancellation handler (not analysed)')
+                must = all(t in waits for t in tg) and verdict == 'cancels'
+                ctx.need(must, f'{cons}: `{pf.nsrc(a)}` may be cancelled on its own ({how}) and may be waiting for cpu_sem at that moment '
+                         f'({may[[t for t in tg if t in may][0]]}); which method the receiver denotes / who cancels the task is not decided statically')
+                ctx.bad('R5', cons, f'`{pf.nsrc(a)}` is handed to a caller that may cancel it ({how}), and {waits[tg[0]]}: a job cancelled that way while it is still QUEUED '
+                        f'abandons its wait. {_ABANDONED}', m.path, rc.lineno)
+
+
+def _worker_uses(ctx: Ctx, cancel_safe: bool) -> None:
     roots = ['batch/batch/worker'] if ctx.tier != 'thorough' else ['batch/batch']
     files = [f for f in pf.walk_py(roots) if f != F]
     ctx.need(WK in files, f'{WK} not found')
     n_with = 0
     n_manual = 0
     n_ctor = 0
+    n_cancellers = 0
     for rel in files:
         m = pf.load(rel)
         if 'cpu_sem' not in m.src:
             continue
         par = m.parents()
         manual: Dict[int, Tuple[pf.FuncDef, str, set]] = {}
+        mf = cf.ModFuncs(m)
+        exposed = cf.cancel_exposed(mf)
+        n_cancellers += len(exposed)
+        sites: List[Tuple[str, ast.AST]] = []   # (qualified function, statement / expression that waits for the semaphore)
+        handed_fns: set = set()                  # functions in which the acquire was handed over (reported by R5; pairing not analysed there)
         for n in ast.walk(m.tree):
             if not (isinstance(n, ast.Attribute) and n.attr == 'cpu_sem'):
                 continue
@@ -473,6 +655,7 @@ def _worker_uses(ctx: Ctx) -> None:
                 if isinstance(item, ast.withitem) and item.context_expr is p and isinstance(stmt, ast.AsyncWith):
                     ctx.check(len(p.args) == 1 and not p.keywords, 'R4', cons, 'cpu_sem(...) is not called with exactly the weight', m.path, line)
                     n_with += 1
+                    sites.append((q, stmt))
                 elif isinstance(item, ast.Expr) or (isinstance(item, ast.withitem) and isinstance(stmt, ast.With)):
                     ctx.bad('R4', cons, f'`{pf.nsrc(p)}` is not the context expression of an `async with`: nothing is acquired / the acquired CPU is not released on every exit',
                             m.path, line)
@@ -490,6 +673,11 @@ def _worker_uses(ctx: Ctx) -> None:
                                                                       and up.attr not in ('copy', 'count', 'index', '__len__'))
                 ctx.check(not mutating, 'R2', cons, 'the worker manipulates the waiter queue of the semaphore directly: waiters are dropped or reordered outside acquire/release',
                           m.path, line)
+            elif isinstance(p, ast.Attribute) and p.value is n and p.attr == 'acquire' and _handed_to(par, p) is not None and fn is not None:
+                # the bound method `S.acquire` (or the coroutine object `S.acquire(w)`) is an ARGUMENT of another call: who runs it, and may it be cancelled on its own?
+                handed, recv = _handed_to(par, p)  # type: ignore[misc]
+                _r5_handed(ctx, m, mf, exposed, q, handed, recv, cancel_safe, f'`{pf.nsrc(handed)}` (the semaphore\'s acquire)')
+                handed_fns.add(id(fn))
             elif isinstance(p, ast.Attribute) and p.value is n and p.attr in ('acquire', 'release') and isinstance(par.get(p), ast.Call) and par[p].func is p:
                 ctx.need(fn is not None, f'{rel}: {pf.nsrc(par[p])} at module level')
                 manual.setdefault(id(fn), (fn, q, set()))[2].add(pf.nsrc(n))  # type: ignore[arg-type]
@@ -510,9 +698,25 @@ def _worker_uses(ctx: Ctx) -> None:
                         raise AnalysisError(f'{rel}::{q}: unrecognised use of the cpu_sem alias `{alias}`: `{pf.nsrc(px) if px is not None else alias}`')
             else:
                 raise AnalysisError(f'{rel}::{q}: unrecognised use of cpu_sem: `{pf.nsrc(p) if p is not None else pf.nsrc(n)}` (handing over the semaphore is not analysed)')
+        # manual acquisitions are waiting sites too; an @asynccontextmanager method that acquires around its `yield` moves the site to its `async with` users
+        cm_uses: Dict[str, List[Tuple[str, ast.AST]]] = {}
+        for fn, q, recvs in manual.values():
+            if id(fn) in handed_fns:
+                continue
+            for x in pf.walk_shallow(fn):
+                if isinstance(x, ast.Await) and isinstance(x.value, ast.Call) and isinstance(x.value.func, ast.Attribute) and x.value.func.attr == 'acquire' \
+                        and pf.nsrc(x.value.func.value) in recvs:
+                    sites.append((q, x))
+            if any(d.split('.')[-1] == 'asynccontextmanager' for d in pf.decorator_names(fn)) and any(isinstance(x, ast.Yield) for x in pf.walk_shallow(fn)):
+                cm_uses[q] = _cm_users(ctx, m, mf, q, fn)
+                sites.extend(cm_uses[q])
+        _r5_sites(ctx, m, mf, exposed, sites, cancel_safe)
         covered: set = set()
+        replaced: set = set()  # callers analysed with an acquire-only helper inlined (their un-inlined form is not a pairing site)
         pending = []
         for fn, q, recvs in manual.values():
+            if id(fn) in handed_fns:
+                continue  # reported by R5: the acquire does not run in this function, so there is no pairing to analyse here
             ctx.need(len(recvs) == 1, f'{rel}::{q}: the semaphore is reached through several expressions {sorted(recvs)}')
             S = next(iter(recvs))
             # acquire and release not both in this function: analyse it with its same-class helpers inlined (a release moved into a helper method)
@@ -526,13 +730,38 @@ def _worker_uses(ctx: Ctx) -> None:
                     covered |= {f'{q.rsplit(".", 1)[0]}.{h}' for h, _ in il.inlined}
                 except AnalysisError:
                     fn2, m2 = fn, m
-            pending.append((fn2, m2, q, S))
+                if not any(pf.dotted(c.func) == f'{S}.release' for c in pf.calls_in(fn2)):
+                    # an acquire-only helper (`await self._take_cores()` ... release in the caller): the pairing is decided in the same-class callers, with the helper inlined
+                    recv0 = fn.args.args[0].arg if fn.args.args else 'self'
+                    callers = [(k, g) for k, g in mf.by_q.items() if mf.class_of(k) is not None and k.count('.') == 1 and g is not fn
+                               and fn.name in {c.func.attr for c in pf.calls_in(g) if isinstance(c.func, ast.Attribute) and pf.nsrc(c.func.value) == recv0}
+                               and mf.lookup_method(mf.class_of(k), fn.name) == q]  # type: ignore[arg-type]
+                    ctx.need(callers, f'{rel}::{q}: acquires {S} but never releases it, and no same-class caller was found (pairing across classes/modules is not analysed)')
+                    for k, g in callers:
+                        try:
+                            mk, ilk = inline_methods(m, k.split('.')[0], g.name)
+                        except AnalysisError as e:
+                            raise AnalysisError(f'{rel}::{k}: calls the acquire-only helper {q} and cannot be inlined ({e})')
+                        ctx.need(any(h == fn.name for h, _ in ilk.inlined), f'{rel}::{k}: calls the acquire-only helper {q} in a form that is not inlined (pairing across that call is not analysed)')
+                        pending.append((mk.func(k), mk, k, S))
+                        replaced.add(k)
+                    continue
+            if q not in replaced:
+                pending.append((fn2, m2, q, S))
+        pending = [x for i, x in enumerate(pending) if not (x[2] in replaced and x[1] is m)]
         for fn2, m2, q, S in pending:
             has_acq = any(pf.dotted(c.func) == f'{S}.acquire' for c in pf.calls_in(fn2))
             if not has_acq and q in covered:
                 continue  # a helper whose body was analysed inside its caller
             na, nr = _manual_site(ctx, m2, fn2, q, S, m)
-            n_manual += na
+            if q in cm_uses:
+                # the pairing holds inside the context manager (release in the finally around the yield): each `async with self.<helper>()` is an acquisition site
+                ctx.need(na == 1 and nr >= 1, f'{rel}::{q}: context-manager helper with {na} acquire(s) / {nr} release(s)')
+                n_with += len(cm_uses[q])
+                ctx.unit('context_manager_helpers', 1)
+            else:
+                n_manual += na
+    ctx.unit('functions_that_cancel_what_they_are_given', n_cancellers)
     ctx.unit('worker_async_with_sites', n_with)
     if n_manual:
         ctx.unit('worker_manual_sites', n_manual)
@@ -540,16 +769,46 @@ def _worker_uses(ctx: Ctx) -> None:
     ctx.need(n_with + n_manual >= 2, f'only {n_with + n_manual} acquisition site(s) of cpu_sem found under {roots} (DockerJob.run and JVMJob.run expected)')
 
 
-def _cancel_info(ctx: Ctx, m: pf.Module, cls: ast.ClassDef) -> None:
+def _cancel_info(ctx: Ctx, m: pf.Module, cls: ast.ClassDef) -> bool:
+    """Does acquire run ANY code touching the semaphore state when it is cancelled while waiting?  False = provably no clean-up: the queue entry of a
+    cancelled waiter stays where it is (R5 then forbids abandoning a queued wait).  True = some handler exists; its correctness is not analysed."""
     fn = af.method(m, cls, 'acquire')
+    safe = True
     for n in pf.walk_shallow(fn):
         if isinstance(n, ast.Await):
             blocks, _ = af.cancel_blocks(m, fn, n)
-            cleans = any(any(isinstance(c, ast.Call) and pf.dotted(c.func) in (f'{Q}.remove', 'self.release') for s in b for c in ast.walk(s)) for _, b in blocks)
+            cleans = any(any((isinstance(c, ast.Call) and pf.dotted(c.func) == 'self.release') or (isinstance(c, ast.Attribute) and pf.nsrc(c) in (Q, VAL))
+                             for s_ in b for c in ast.walk(s_)) for _, b in blocks)
             if not cleans:
-                ctx.info(f'{F}::{CLS}.acquire: `{pf.nsrc(n)}` has no cancellation clean-up; a waiter cancelled while queued stays in the queue, '
-                         f'a later release charges its weight to nobody (capacity lost). Outside C16\'s quantifier (acquire/release schedules only); '
-                         f'in worker.py only task-manager shutdown cancels Job.run.')
+                safe = False
+                ctx.info(f'{F}::{CLS}.acquire: `{pf.nsrc(n)}` has no cancellation clean-up; a waiter cancelled while queued stays in the queue and '
+                         f'a later release charges its weight to nobody (capacity lost for good). R5 checks that no use site abandons a queued wait '
+                         f'(timeout / race against another event); cancellation of the whole worker at shutdown is outside the property.')
+    return safe
+
+
+def _r5_control(ctx: Ctx) -> None:
+    """Positive control: the canceller recognition must see through the idiom the worker uses (task + FIRST_COMPLETED + cancel in finally) and a thin wrapper."""
+    src = ('import asyncio\n'
+           'async def race(event, f, *args):\n'
+           '    step = asyncio.create_task(f(*args))\n'
+           '    other = asyncio.create_task(event.wait())\n'
+           '    try:\n'
+           '        await asyncio.wait([other, step], return_when=asyncio.FIRST_COMPLETED)\n'
+           '    finally:\n'
+           '        for t in (step, other):\n'
+           '            if not t.done():\n'
+           '                t.cancel()\n'
+           'class J:\n'
+           '    async def until_deleted(self, g, *a):\n'
+           '        return await race(self.ev, g, *a)\n'
+           '    async def plain(self, g):\n'
+           '        return await g()\n')
+    mm = pf.Module('<control>', '<control>', src, ast.parse(src))
+    exp = cf.cancel_exposed(cf.ModFuncs(mm))
+    ok = 'f' in exp.get('race', {}) and 'g' in exp.get('J.until_deleted', {}) and 'J.plain' not in exp
+    ctx.need(ok, f'internal: canceller recognition failed its positive control ({exp})')
+    ctx.ok('R5', 'control::task raced against an event and cancelled, through a wrapper method', sorted(exp), nontrivial=False)
 
 
 def run(ctx: Ctx) -> None:
@@ -562,6 +821,8 @@ def run(ctx: Ctx) -> None:
                    '(set+popleft+decrement together) and stops only when the head does not fit', 13)
     ctx.rule('R4', 'context manager releases exactly what it acquired on exit; every worker acquisition of cpu_sem is `async with cpu_sem(w)` or a manual acquire '
                    'released exactly once with the same weight on every exit and never without a completed acquire; nobody writes .value / .queue', 7)
+    ctx.rule('R5', 'no queued waiter is abandoned: acquire has no cancellation clean-up, so no worker acquisition of cpu_sem is raced against another event / a timeout '
+                   '(acquire handed to a function that cancels what it is given, a timeout block around the wait, a waiting function handed to such a canceller)', 3)
     ctx.assume('asyncio runs one coroutine at a time and switches only at await; asyncio.Event.set wakes every waiter of that event')
     ctx.assume('requested weights do not exceed the capacity (quantifier of the property)')
     m = pf.load(F)
@@ -572,6 +833,7 @@ def run(ctx: Ctx) -> None:
     layout = _acquire(ctx, m, cls, guards)
     _release(ctx, m, cls, guards, layout)
     _ctx_manager(ctx, m)
-    _worker_uses(ctx)
-    _cancel_info(ctx, m, cls)
+    cancel_safe = _cancel_info(ctx, m, cls)
+    _r5_control(ctx)
+    _worker_uses(ctx, cancel_safe)
     ctx.unit('functions', 7)
